@@ -77,6 +77,9 @@ def curated():
     # 17. 1-entry link tables; ONE write that creates the second and the third table mid-write; re-read after reopen
     S.append(("lb-third-table", [CREATE(16), HLCREATE(0, 0, 4, 1), WRITE(0, 12), SEEK(0, 0), READ(0, 0), ENDACC(0), CLOSE(),
                                OPEN(DFACC_READ), GET(0), STARTACC(0, 0, 1), SEEK(0, 7), READ(0, 5), ENDACC(0), CHECKALL(), CLOSE()]))
+    # 18. DD caching off: a linked block reserved with 3 bytes of which 2 are written; the unwritten tail byte reads as zero now and after reopen
+    S.append(("nocache-reserve-tail", [CREATE(5), CACHE(0), HLCREATE(0, 0, 3, 2), WRITE(0, 2), ENDACC(0), PUT(1, 5), STARTACC(0, 0, 7), SEEK(0, 4), WRITE(0, 1),
+                                     SEEK(0, 2), READ(0, 1), SEEK(0, 0), READ(0, 0), ENDACC(0), CLOSE(), OPEN(DFACC_READ), GET(0), GET(1), CLOSE()]))
     return S
 
 def random_skeleton(rng):
